@@ -101,6 +101,12 @@ def check_record(st, fam, cls, s, rots, constructions, scn_base):
     nstarts, ref, sp = reference(cls, s)
     rec0 = gen.crec(s, "r0")
     obs0 = observe(cls, rec0)
+    # a typed wrapper of the unrotated record stays alive while the rotations are typed (parts are kept around in practice)
+    alive = cls(rec0)
+    try:
+        alive.is_valid()
+    except Exception:
+        pass
     if nstarts > 1:
         st.filtered += 1
         return
